@@ -9,5 +9,5 @@ case "$P" in
   *) (cd "$D" && patch -p1 -s < "$P") ;;
 esac
 cd /verif
-EKW_REPO_SRC="$D/src" ./check "$PROP" --tier "$TIER" 2>&1 | grep -E "VIOLATION|DETAIL|UNDECIDED|KNOWN|^\[" | cut -c1-260 | head -${LINES_MAX:-12}
+VERIF_EVIDENCE_DIR="$D/evidence" VERIF_REPLAY_DIR="$D/replays" EKW_REPO_SRC="$D/src" ./check "$PROP" --tier "$TIER" 2>&1 | grep -E "VIOLATION|DETAIL|UNDECIDED|KNOWN|^\[" | cut -c1-260 | head -${LINES_MAX:-12}
 rm -rf "$D"
